@@ -1029,8 +1029,9 @@ class SVG:
         remove = []
         for el, (shape,) in self._elements():
             # the children of a clipPath are geometry, what they are painted with is
-            # irrelevant: fill="none" or opacity="0" there still clips
-            if any(strip_ns(a.tag) == "clipPath" for a in el.iterancestors()):
+            # irrelevant: fill="none" or opacity="0" there still clips; a template in
+            # defs is painted by the use elements that instance it, with their paint
+            if any(strip_ns(a.tag) in ("clipPath", "defs") for a in el.iterancestors()):
                 continue
             if not shape.might_paint():
                 remove.append(el)
